@@ -68,7 +68,7 @@ def uvUnweldedQuads (rows cols : Nat) : List Nat :=
 def uvUnweldedTris (rows cols : Nat) : List Nat := uvUnweldedCaps cols ++ uvUnweldedQuads rows cols
 def uvUnweldedVerts (rows cols : Nat) : Nat := 6 * cols + 4 * ((rows - 2) * cols)
 
-/-! ### Circle (circle.go:22-79), for `1 ≤ sides` -/
+/-! ### Circle (circle.go:22-82), `3 ≤ sides` (fewer are rejected by a panic) -/
 
 def circleVerts (sides : Nat) : Nat := sides + 1
 
